@@ -45,8 +45,9 @@ def in_class_KT1(case):
 
 
 def in_class_KT2(case):
-    """known finding KT2: id() on a shared native source that declares no ID attribute (empty XalanMap whose
-    XalanList head is allocated lazily by a const accessor)"""
+    """known finding KT2: a const lookup in a never-filled XalanMap of a shared native source - id() when the
+    document declares no ID attribute, unparsed-entity-uri() when it declares no unparsed entity - (the
+    XalanList head of the empty map is allocated lazily by a const accessor)"""
     return case.cls == "noid"
 
 
@@ -71,7 +72,7 @@ def make_workdir(ctx):
             os.remove(os.path.join(core.OUT, PID, old))
     os.makedirs(os.path.join(wd, "res_tsan"))
     os.makedirs(os.path.join(wd, "res_plain"))
-    for f in ("doc2.xml", "imported.xsl", "noid.xml", "idonly.xsl"):
+    for f in ("doc2.xml", "imported.xsl", "noid.xml", "idonly.xsl", "uent.xsl"):
         shutil.copy(os.path.join(CORPUS, f), os.path.join(wd, f))
     return wd
 
@@ -90,7 +91,8 @@ def gen_cases(ctx, wd, n_random, tag="g"):
                   Case("c_own", "own", True, 8, 2, 0, allx, src0, "corpus", facs),
                   Case("c_ownxsl", "native", False, 8, 2, 0, allx, src0, "corpus", facs),
                   Case("k_xdom", "xdom", True, 8, 2, 0, allx, src0, "known", facs),
-                  Case("k_noid", "native", True, 16, 2, 7, os.path.join(wd, "idonly.xsl"), os.path.join(wd, "noid.xml"), "noid", ["id"])]
+                  Case("k_noid", "native", True, 16, 2, 7, os.path.join(wd, "idonly.xsl"), os.path.join(wd, "noid.xml"), "noid", ["id"]),
+                  Case("k_uent", "native", True, 16, 2, 7, os.path.join(wd, "uent.xsl"), os.path.join(wd, "noid.xml"), "noid", ["unparsed-entity-uri"])]
     for i in range(n_random):
         k = r.choice([1, 2, 3, 4, 6, len(facs)])
         fs = r.sample(facs, k)
